@@ -1248,7 +1248,11 @@ func runMuxDeepBacklog(c *checkCtx, idx int) (viol []string, inconcl string, st 
 	if st.variant == "socket-tail" {
 		cl.Close()
 	}
+	sessDead := p.client.IsClosed() || p.server.IsClosed()
 	finish()
+	if sessDead {
+		return nil, "a session of the pair died during the execution", st
+	}
 	if r.mismatch >= 0 {
 		violate("[mismatch] deep backlog of %d queue elements followed by a message on the socket: the reader got a wrong byte at position %d of %d (message %d): bytes of "+
 			"the stream were delivered out of order", st.backlog, r.mismatch, closedAt, r.mismatch/msz)
